@@ -24,11 +24,11 @@ Refines(variant) == \A v \in Vals(ls) :
    /\ (HelperW(ls, v, LF(ld), LI(ld)).dir = 0) = Lossless(v, LF(ls), LF(ld))
 Coded == Refines("coded")
 NoSign == Refines("nosign")
-========================================================================\* the rewriting of the overflow test used by the real-width lemma tla/apa/ConvInt.tla:
+\* the rewriting of the overflow test used by the real-width lemma tla/apa/ConvInt.tla:
 \*   src_bits - leading > K   <=>   v >= 2^K (v > 0)   resp.   -v - 1 >= 2^(K-1) (v < 0)
 ASSUME \A w \in 2..7, s \in BOOLEAN, K \in -3..10 :
          \A v \in (IF s THEN -P2n(w - 1) ELSE 0)..(IF s THEN P2n(w - 1) - 1 ELSE P2n(w) - 1) :
             v = 0 \/ ((w - Leading(v, w, s) > K)
                        = (IF v > 0 THEN K < 0 \/ v >= P2n(IF K < 0 THEN 0 ELSE K)
                           ELSE K < 1 \/ -v - 1 >= P2n(IF K < 1 THEN 0 ELSE K - 1)))
-=====
+=============================================================================
